@@ -59,6 +59,11 @@ def check_tree(root, store=None, whole_store=False):
     except Exception as e:  # store itself is broken: C07's business, but the tree cannot be valid either
         return [('store-iter-exc', f'{type(e).__name__}: {e}')]
     idx = {id(t): i for i, t in enumerate(toks)}
+    if len(idx) != len(toks):
+        seen = set()
+        dup = next(t for t in toks if id(t) in seen or seen.add(id(t)))
+        return [('token-twice-in-store', f'the token object {dup!r} sits at {sum(1 for t in toks if t is dup)} positions of the store '
+                                         f'(a token has one place and one handle)')]
     owners: dict[int, list[str]] = {}
 
     def span(m, path):
